@@ -732,6 +732,9 @@ pub fn gen_layered(r: &mut Rng) -> Case {
 // The Lean driver prints the same digest from the model state (`digest` in Driver/Engine.lean).
 // ------------------------------------------------------------------------------------------
 
+/// number of duplicate elements dropped from set-valued fields (backward edges, firewall sets) by `state_digest`
+pub static STATE_DIGEST_DUPLICATES: std::sync::atomic::AtomicU64 = std::sync::atomic::AtomicU64::new(0);
+
 #[cfg(qbice_verif)]
 pub fn key_query_id(p: &Program, k: u32) -> qbice::query::QueryID {
     use qbice::{query::QueryID, stable_hash::{BuildStableHasher, SeededStableHasherBuilder, Sip128Hasher, StableHasher}};
@@ -757,13 +760,21 @@ pub fn key_query_id(p: &Program, k: u32) -> qbice::query::QueryID {
 /// `dirty` = every key c such that the edge (k,c) is in the dirty set (recorded forward edge or not); `back` = callers.
 /// A QueryID that is not a key of the program prints as `?`.
 #[cfg(qbice_verif)]
-pub async fn state_digest<C: Config>(engine: &Arc<Engine<C>>, p: &Program) -> String {
+pub async fn state_digest<C: Config>(engine: &Arc<Engine<C>>, p: &Program) -> String { state_digest_opts(engine, p, true).await }
+
+/// `all_pairs_dirty = false` (programs with hundreds of keys): `dirty` lists the dirty RECORDED forward edges only
+#[cfg(qbice_verif)]
+pub async fn state_digest_opts<C: Config>(engine: &Arc<Engine<C>>, p: &Program, all_pairs_dirty: bool) -> String {
     use qbice::verif::{DumpDependency, dump_node, current_timestamp, is_edge_dirty, stored_value};
     let n = p.nodes.len() as u32;
     let ids: Vec<qbice::query::QueryID> = (0..n).map(|k| key_query_id(p, k)).collect();
     let rev: std::collections::HashMap<qbice::query::QueryID, u32> = ids.iter().enumerate().map(|(k, id)| (*id, k as u32)).collect();
     let name = |id: &qbice::query::QueryID| rev.get(id).map(|k| k.to_string()).unwrap_or_else(|| "?".into());
-    let sorted = |v: &[qbice::query::QueryID]| { let mut ks: Vec<(u32, String)> = v.iter().map(|id| (rev.get(id).copied().unwrap_or(u32::MAX), name(id))).collect(); ks.sort(); ks.into_iter().map(|x| x.1).collect::<Vec<_>>().join(",") };
+    // sets are printed sorted and WITHOUT multiplicity (the iterator of a backward-edge set that is streamed from the store
+    // can yield an element more than once: store scan + staged re-insert; counted in STATE_DIGEST_DUPLICATES)
+    let sorted = |v: &[qbice::query::QueryID]| { let mut ks: Vec<(u32, String)> = v.iter().map(|id| (rev.get(id).copied().unwrap_or(u32::MAX), name(id))).collect(); ks.sort(); let n0 = ks.len(); ks.dedup();
+        STATE_DIGEST_DUPLICATES.fetch_add((n0 - ks.len()) as u64, std::sync::atomic::Ordering::Relaxed);
+        ks.into_iter().map(|x| x.1).collect::<Vec<_>>().join(",") };
     let now = current_timestamp(engine);
     let mut dumps = vec![];
     for k in 0..n { dumps.push(dump_node(engine, &ids[k as usize]).await); }
@@ -798,7 +809,8 @@ pub async fn state_digest<C: Config>(engine: &Arc<Engine<C>>, p: &Program) -> St
             }
         };
         let mut dirty = vec![];
-        for c in 0..n { if is_edge_dirty(engine, id, &ids[c as usize]).await { dirty.push(c.to_string()); } }
+        if all_pairs_dirty { for c in 0..n { if is_edge_dirty(engine, id, &ids[c as usize]).await { dirty.push(c.to_string()); } } }
+        else { let mut ks: Vec<u32> = d.dirty_forward_edges.iter().filter_map(|x| rev.get(x).copied()).collect(); ks.sort(); ks.dedup(); dirty = ks.into_iter().map(|c| c.to_string()).collect(); }
         parts.push(format!("{k}:{kind}:v{}:val={}:deps=[{deps}]:obs=[{obs}]:dirty=[{}]:tfc=[{}]:pend={}:back=[{}]",
             if d.last_verified == Some(now) { 1 } else { 0 },
             val.map(|v| v.to_string()).unwrap_or_else(|| "-".into()),
